@@ -207,7 +207,93 @@ def run_bad(ctx, n):
     ctx.run_hypothesis(bad_cases(), check, n)
 
 
+# ---------------------------------------------------------------------------
+# large arrays (beyond 64^3 voxels): vectorised exact integer reference
+# ---------------------------------------------------------------------------
+@st.composite
+def large_cases(draw):
+    return {"dtype": draw(st.sampled_from(["uint8", "uint16", "uint32"])),
+            "shape": [draw(st.integers(1, 2)),
+                      draw(st.sampled_from([54, 60, 65, 105, 128])),
+                      draw(st.sampled_from([64, 70, 71])),
+                      draw(st.sampled_from([64, 70, 73]))],
+            "factors": [draw(st.sampled_from([1, 2])) for _ in range(3)],
+            "method": draw(st.sampled_from(["average", "average", "stride"])),
+            "outside": draw(st.sampled_from([None, None, 0, 255])),
+            "seed": draw(st.integers(0, 2 ** 20))}
+
+
+def int_average(arr, factors, outside):
+    """Exact block mean with integer arithmetic (edge / constant completion,
+    half-to-even rounding) - independent of the package's float code."""
+    C, Z, Y, X = arr.shape
+    fx, fy, fz = factors
+    oz, oy, ox = -(-Z // fz), -(-Y // fy), -(-X // fx)
+    a = arr.astype(np.int64)
+    total = np.zeros((C, oz, oy, ox), dtype=np.int64)
+    for dz in range(fz):
+        for dy in range(fy):
+            for dx in range(fx):
+                zi = np.arange(oz) * fz + dz
+                yi = np.arange(oy) * fy + dy
+                xi = np.arange(ox) * fx + dx
+                inside = ((zi < Z)[:, None, None] & (yi < Y)[None, :, None]
+                          & (xi < X)[None, None, :])
+                v = a[:, np.minimum(zi, Z - 1)][:, :, np.minimum(yi, Y - 1)][
+                    :, :, :, np.minimum(xi, X - 1)]
+                if outside is not None:
+                    v = np.where(inside[None], v, int(outside))
+                total += v
+    n = fx * fy * fz
+    q, r = np.divmod(total, n)
+    out = q + (2 * r > n) + ((2 * r == n) & (q & 1))
+    hi = int(np.iinfo(arr.dtype).max)
+    return np.clip(out, 0, hi).astype(arr.dtype)
+
+
+def check_large(ctx, case):
+    rng = np.random.default_rng(case["seed"])
+    dt = np.dtype(case["dtype"])
+    arr = rng.integers(0, min(int(np.iinfo(dt).max), 2 ** 31), size=tuple(
+        case["shape"]), endpoint=True).astype(dt)
+    ds_ = get_downscaler({"method": case["method"],
+                          "outside": case["outside"]})
+    factors = tuple(case["factors"])
+    try:
+        with np.errstate(all="ignore"):
+            out = ds_.downscale(arr, factors)
+    except Exception as exc:
+        ctx.fail("%s downscale%s of a %s array %s raised %s: %s" % (
+            case["method"], factors, case["dtype"], case["shape"],
+            type(exc).__name__, exc))
+    if case["method"] == "stride":
+        want = arr[:, ::factors[2], ::factors[1], ::factors[0]]
+    else:
+        want = int_average(arr, factors, case["outside"])
+    if tuple(out.shape) != tuple(want.shape) or out.dtype != arr.dtype:
+        ctx.fail("%s%s of %s: output shape %s dtype %s, expected %s %s" % (
+            case["method"], factors, case["shape"], out.shape, out.dtype,
+            want.shape, arr.dtype))
+    if not np.array_equal(out, want):
+        bad = np.argwhere(out != want)
+        i = tuple(bad[0])
+        ctx.fail("%s%s of a large %s array %s: %d voxels differ from the "
+                 "exact block statistic, first at %s: %r vs %r" % (
+                     case["method"], factors, case["dtype"], case["shape"],
+                     len(bad), list(map(int, i)), out[i].item(),
+                     want[i].item()))
+
+
+def run_large(ctx, n):
+    def check(ctx, case):
+        check_large(ctx, case)
+        ctx.record(case, True, [case["dtype"], case["method"]])
+    ctx.run_hypothesis(large_cases(), check, n)
+
+
 def replay(ctx, case):
+    if "seed" in case and "data" not in case:
+        return check_large(ctx, case)
     if "data" in case:
         check_case(ctx, case)
     else:
@@ -220,4 +306,5 @@ SUBS = [
         thorough=80000),
     Sub("stride", run_method("stride"), replay, quick=1500, thorough=40000),
     Sub("unsupported", run_bad, replay, quick=800, thorough=10000),
+    Sub("large", run_large, replay, quick=24, thorough=600, shards=6),
 ]
